@@ -63,6 +63,8 @@ pub struct Rec<C, const NATIVE: bool> {
     /// calls attempted after a fault was returned
     pub calls_after_fault: usize,
     pub faulted: bool,
+    /// kind and area of the call that was made to fail
+    pub fault_call: Option<(&'static str, Option<(i32, i32, u32, u32)>)>,
     pub drain: bool,
     /// (area size, colours pulled) per fill_contiguous call when draining
     pub drained: Vec<(u64, u64)>,
@@ -85,6 +87,7 @@ impl<C: PixelColor, const N: bool> Rec<C, N> {
             fault_at: None,
             calls_after_fault: 0,
             faulted: false,
+            fault_call: None,
             drain: false,
             drained: vec![],
         }
@@ -102,13 +105,14 @@ impl<C: PixelColor, const N: bool> Rec<C, N> {
         self
     }
     /// returns Err if this call is the one to fail
-    fn enter(&mut self) -> Result<(), Fault> {
+    fn enter(&mut self, kind: &'static str, area: Option<&Rectangle>) -> Result<(), Fault> {
         if self.faulted {
             self.calls_after_fault += 1;
         }
         self.ncalls += 1;
         if self.fault_at == Some(self.ncalls) {
             self.faulted = true;
+            self.fault_call = Some((kind, area.map(rt)));
             return Err(Fault(self.ncalls));
         }
         Ok(())
@@ -131,7 +135,7 @@ impl<C: PixelColor> DrawTarget for Rec<C, false> {
     type Error = Fault;
     fn draw_iter<I: IntoIterator<Item = Pixel<C>>>(&mut self, px: I) -> Result<(), Fault> {
         // the failing call consumes nothing
-        self.enter()?;
+        self.enter("draw_iter", None)?;
         if self.log_calls {
             let v: Vec<((i32, i32), C)> = px.into_iter().map(|Pixel(p, c)| ((p.x, p.y), c)).collect();
             for (p, c) in &v {
@@ -151,7 +155,7 @@ impl<C: PixelColor> DrawTarget for Rec<C, true> {
     type Color = C;
     type Error = Fault;
     fn draw_iter<I: IntoIterator<Item = Pixel<C>>>(&mut self, px: I) -> Result<(), Fault> {
-        self.enter()?;
+        self.enter("draw_iter", None)?;
         if self.log_calls {
             let v: Vec<((i32, i32), C)> = px.into_iter().map(|Pixel(p, c)| ((p.x, p.y), c)).collect();
             for (p, c) in &v {
@@ -166,7 +170,7 @@ impl<C: PixelColor> DrawTarget for Rec<C, true> {
         Ok(())
     }
     fn fill_contiguous<I: IntoIterator<Item = C>>(&mut self, area: &Rectangle, colors: I) -> Result<(), Fault> {
-        self.enter()?;
+        self.enter("fill_contiguous", Some(area))?;
         let mut it = colors.into_iter();
         let mut got: Vec<C> = vec![];
         let mut n = 0u64;
@@ -202,7 +206,7 @@ impl<C: PixelColor> DrawTarget for Rec<C, true> {
         Ok(())
     }
     fn fill_solid(&mut self, area: &Rectangle, color: C) -> Result<(), Fault> {
-        self.enter()?;
+        self.enter("fill_solid", Some(area))?;
         for p in area.points() {
             self.map.insert((p.x, p.y), color);
         }
@@ -212,7 +216,7 @@ impl<C: PixelColor> DrawTarget for Rec<C, true> {
         Ok(())
     }
     fn clear(&mut self, color: C) -> Result<(), Fault> {
-        self.enter()?;
+        self.enter("clear", None)?;
         let b = self.bbox;
         for p in b.points() {
             self.map.insert((p.x, p.y), color);
